@@ -374,6 +374,27 @@ typedef struct {
 } c16_out;
 void c16_run(const c16_scn *scn, c16_out *out);
 
+/* file variant (tp_task_rw_handler: pread / pwrite at a file offset), direct first transfer on an in-memory file */
+typedef struct {
+	uint8_t dir;		/* 0 read task, 1 write task */
+	uint16_t buf_size, win_off, win_len, used0;
+	uint32_t file_size;	/* size of the file before the task (content = pattern by file position) */
+	uint32_t file_off;	/* offset handed to tp_task_start_ex() */
+	uint8_t sealed;		/* write: the file cannot grow (F_SEAL_GROW): a window that crosses the end is written partly, then fails */
+} c16f_scn;
+typedef struct {
+	int setup_rc, start_rc;
+	uint32_t ncb;
+	c16_cb cb[4];
+	uint8_t buf_image[4096 + 64];
+	uint8_t file_image[8192];	/* file content afterwards (first 8192 bytes) */
+	uint32_t file_size_after;
+	uint64_t final_used, final_offset, final_tr;
+	tp_res_stats res;
+} c16f_out;
+void c16f_run(const c16f_scn *scn, c16f_out *out);
+uint8_t c16f_file_pattern(uint64_t pos);
+
 /* ======================= C16 conn (tp_conn.c, drivers/C16_conn.cpp) -- begin =======================
  * Second unit of C16: datagram receiver, accept, connect and connect_ex tasks. */
 /* ---- (1) datagram receiver ---- */
@@ -387,7 +408,9 @@ typedef struct {
 				 * (or the task stopped), 3 wait for one timeout report (short timeouts only) */
 } c16p_dgram;
 typedef struct {
-	uint8_t transport;	/* 0 AF_UNIX SOCK_DGRAM socketpair, 1 UDP on 127.0.0.1 */
+	uint8_t transport;	/* 0 AF_UNIX SOCK_DGRAM socketpair, 1 UDP on 127.0.0.1, 2 AF_UNIX SOCK_DGRAM bound to a path with TWO bound senders
+				 * whose paths differ in length (datagram i comes from sender i & 1: short path first) */
+	char pdir[100];		/* transport 2: where the socket paths are created */
 	uint16_t buf_size;	/* 8..C16P_BUF_MAX */
 	uint16_t used0, off0, tr0; /* io_buf cursors at the start: off0 + tr0 <= buf_size */
 	uint8_t reset_policy;	/* what the callback does after a datagram: 0 in-tree (IO_BUF_MARK_AS_EMPTY + IO_BUF_MARK_TRANSFER_ALL_FREE),
@@ -412,6 +435,7 @@ typedef struct {
 	uint8_t addr_null, on_owner;
 	uint8_t action;		/* what the callback then did: 0 nothing (CONTINUE), 1 in-tree reset, 2 re-armed initial window, 3 stopped (stop_how) */
 	uint16_t addr_family, addr_port; /* host order */
+	uint8_t addr_unix_sender;	/* transport 2: 1 = the address is exactly the short sender path, 2 = exactly the long one, 3 = something else, 0 = n/a */
 	uint32_t addr_ip;	/* host order, AF_INET only */
 	int32_t ret;
 	uint64_t t_us;		/* harness clock at callback entry; used for "not earlier than the timeout" only */
